@@ -24,6 +24,7 @@ type HarnessSpec struct {
 	Kind     string   `json:"kind"` // "step" (inductive / proof obligations) or "hist"
 	Tier     string   `json:"tier"` // "", "quick", "thorough": restricts the harness to a tier
 	Note     string   `json:"note"`
+	Merge    bool     `json:"merge"`  // enable if-conversion (state merging of pure diamonds)
 	Native   bool     `json:"native"` // counterexamples are also replayed against the compiled code
 }
 
@@ -167,7 +168,11 @@ func (e *Explorer) absorb(m *Machine, pr *PathResult, rng *rand.Rand) {
 	case "ok", "assume", "violation", "panic", "deadlock", "panic-allowed", "deadlock-allowed":
 	default:
 		if len(r.Inconclusive) < 20 {
-			r.Inconclusive = append(r.Inconclusive, pr.Outcome+": "+pr.Why)
+			why := pr.Why
+			if len(why) > 700 {
+				why = why[:700] + " ..."
+			}
+			r.Inconclusive = append(r.Inconclusive, pr.Outcome+": "+why)
 		}
 	}
 	if pr.Unknowns > 0 && len(r.Inconclusive) < 20 {
